@@ -822,3 +822,100 @@ Example rejects_examples :
   get_vela_config false false (Some [(ex_sys, [(K_axi1, TName 2)]); (ex_mem_parent, [(K_const, TName 12); (K_acs, TInt (2 ^ 32))])])
                   ex_sys ex_mem_parent None <> Err EVela.
 Proof. repeat split; vm_compute; congruence. Qed.
+
+(* ------------------------------------------------------------------------------------------ *)
+(* concrete paths: which file a --config argument names                                        *)
+Theorem resolve_path_absolute_lemma bdir cwd p :
+  p_abs p = true -> resolve_path bdir cwd p = if ends_ini (norm p) then Some (norm p) else None.
+Proof.
+  intro H. unfold resolve_path, is_dirfile. rewrite H. cbn [negb andb].
+  destruct (ends_ini (norm p)); reflexivity.
+Qed.
+
+Theorem resolve_path_dirfile_lemma bdir cwd d i f l :
+  resolve_path bdir cwd (mkPath false [CName d i 0; CName f true l]) = Some (bdir ++ [CName d i 0; CName f true l]).
+Proof. reflexivity. Qed.
+
+Theorem resolve_path_two_components_lemma bdir cwd p d i c2 :
+  p_abs p = false -> norm p = [CName d i 0; c2] -> ends_ini (norm p) = true ->
+  resolve_path bdir cwd p = Some (bdir ++ norm p).
+Proof.
+  intros Ha Hn He. unfold resolve_path. rewrite He, Ha. cbn [negb]. rewrite Hn. reflexivity.
+Qed.
+
+Theorem resolve_path_cwd_free_lemma bdir cwd1 cwd2 p :
+  cwd_free p = true -> resolve_path bdir cwd1 p = resolve_path bdir cwd2 p.
+Proof.
+  unfold cwd_free, resolve_path. destruct (p_abs p); cbn [orb].
+  - intros _. reflexivity.
+  - intros ->. reflexivity.
+Qed.
+
+Lemma parse_all_c_cwd_free w cwd1 cwd2 l :
+  forallb cwd_free l = true -> parse_all_c w cwd1 l = parse_all_c w cwd2 l.
+Proof.
+  induction l as [|x r IH]; [reflexivity|]. cbn [forallb]. intro H. apply andb_true_iff in H. destruct H as [Hx Hr].
+  cbn [parse_all_c]. unfold parse_config_path_c. rewrite (resolve_path_cwd_free_lemma (w_bdir w) cwd1 cwd2 x Hx), (IH Hr).
+  reflexivity.
+Qed.
+
+(* absolute arguments and Dir/file.ini arguments: the resolved architecture does not depend on the working directory *)
+Theorem main_concrete_cwd_independent_lemma pm w cwd1 cwd2 a :
+  pm_pass_resolved pm = true -> forallb cwd_free (c_config a) = true ->
+  main_concrete pm w cwd1 a = main_concrete pm w cwd2 a.
+Proof.
+  intros Hp Hf. unfold main_concrete. rewrite Hp, (parse_all_c_cwd_free w cwd1 cwd2 _ Hf). reflexivity.
+Qed.
+
+Lemma parse_all_c_spec w cwd l :
+  match parse_all_c w cwd l with
+  | Ok fs => spec_inis w cwd l = Some (map (fun f => match w_lookup (w_files w) f with Some c => c | None => [] end) fs)
+  | Err _ => spec_inis w cwd l = None
+  end.
+Proof.
+  induction l as [|x r IH]; [reflexivity|].
+  cbn [parse_all_c spec_inis]. unfold parse_config_path_c.
+  destruct (resolve_path (w_bdir w) cwd x) as [f|]; cbn [bind obind]; [|reflexivity].
+  destruct (w_lookup (w_files w) f) as [c|] eqn:E; cbn [bind obind]; [|reflexivity].
+  destruct (parse_all_c w cwd r) as [fs|e]; cbn [bind]; rewrite IH; cbn [obind map]; [|reflexivity].
+  rewrite E. reflexivity.
+Qed.
+
+Theorem main_concrete_matches_doc_lemma w cwd a :
+  to_option (main_concrete (mkMP None true false) w cwd a) = spec_main_c w cwd a.
+Proof.
+  unfold main_concrete, spec_main_c. cbn [pm_pass_resolved pm_imx93 pm_arena_default andb].
+  assert (C : match c_acs a with Some v => Some v | None => None end = c_acs a) by (destruct (c_acs a); reflexivity).
+  rewrite C. destruct (c_config a) as [|x r].
+  - cbn [parse_all_c bind]. apply resolve_matches_doc_lemma.
+  - pose proof (parse_all_c_spec w cwd (x :: r)) as S.
+    destruct (parse_all_c w cwd (x :: r)) as [fs|e]; rewrite S; cbn [bind obind to_option]; [|reflexivity].
+    unfold read_files_c. apply resolve_matches_doc_lemma.
+Qed.
+
+(* the seeded variant (relpath instead of normpath): an absolute argument two levels below the working directory
+   is taken for Dir/file.ini and sent to the bundled directory *)
+Theorem relpath_variant_refuted_lemma :
+  exists bdir cwd p,
+    p_abs p = true /\ resolve_path bdir cwd p = Some (norm p) /\
+    resolve_path bdir cwd (relpath cwd p) <> resolve_path bdir cwd p /\
+    resolve_path bdir cwd (relpath cwd p) = Some (bdir ++ [CName 12 false 0; CName 13 true 0]).
+Proof.
+  exists [CName 1 false 0; CName 2 false 0], [CName 10 false 0; CName 11 false 0],
+         (mkPath true [CName 10 false 0; CName 11 false 0; CName 12 false 0; CName 13 true 0]).
+  repeat split; vm_compute; congruence.
+Qed.
+
+Example resolve_path_examples :
+  let bd := [CName 1 false 0; CName 2 false 0] in
+  let cwd := [CName 10 false 0; CName 11 false 0] in
+  (* ./Arm/vela.ini -> bundled;  ../x/deep.ini -> relative to cwd;  a/b/c.ini -> relative;  /p/../q/f.ini -> /q/f.ini;  single.ini -> relative;
+     .hidden/f.ini -> relative;  Dir/file.cfg -> rejected *)
+  resolve_path bd cwd (mkPath false [CDot; CName 12 false 0; CName 13 true 0]) = Some (bd ++ [CName 12 false 0; CName 13 true 0]) /\
+  resolve_path bd cwd (mkPath false [CUp; CName 14 false 0; CName 15 true 0]) = Some [CName 10 false 0; CName 14 false 0; CName 15 true 0] /\
+  resolve_path bd cwd (mkPath false [CName 3 false 0; CName 4 false 0; CName 5 true 0]) = Some (cwd ++ [CName 3 false 0; CName 4 false 0; CName 5 true 0]) /\
+  resolve_path bd cwd (mkPath true [CName 6 false 0; CUp; CName 7 false 0; CName 8 true 0]) = Some [CName 7 false 0; CName 8 true 0] /\
+  resolve_path bd cwd (mkPath false [CName 9 true 0]) = Some (cwd ++ [CName 9 true 0]) /\
+  resolve_path bd cwd (mkPath false [CName 16 false 1; CName 8 true 0]) = Some (cwd ++ [CName 16 false 1; CName 8 true 0]) /\
+  resolve_path bd cwd (mkPath false [CName 12 false 0; CName 17 false 0]) = None.
+Proof. cbv zeta. repeat split; reflexivity. Qed.
